@@ -89,12 +89,15 @@ pub fn nested_types(tier: Tier, v: &mut impl Visitor) {
     v.visit::<f32, Dual<Dual32, f32>>(Dims::NONE);
     v.visit::<f64, Dual3<Dual64, f64>>(Dims::NONE);
     v.visit::<f64, HyperHyperDual<Dual64, f64>>(Dims::NONE);
+    // every vector type over a dual inner type (the BLAS-style nalgebra kernels skip a term whose
+    // scalar factor `is_zero`, which for a dual number looks at the real part only)
+    v.visit::<f64, Dual2Vec<Dual64, f64, Const<2>>>(Dims::n(2));
+    v.visit::<f64, HyperDualVec<Dual64, f64, Const<2>, Const<2>>>(Dims::mn(2, 2));
     if tier == Tier::Thorough {
         v.visit::<f64, Dual<Dual<Dual64, f64>, f64>>(Dims::NONE);
         v.visit::<f64, Dual2<Dual2_64, f64>>(Dims::NONE);
         v.visit::<f64, Dual<Dual3_64, f64>>(Dims::NONE);
         v.visit::<f64, Dual<DualSVec64<2>, f64>>(Dims::n(2));
-        v.visit::<f64, HyperDualVec<Dual64, f64, Const<2>, Const<2>>>(Dims::mn(2, 2));
         v.visit::<f32, Dual2<Dual32, f32>>(Dims::NONE);
     }
 }
